@@ -10,6 +10,11 @@
 //! Observed outcome of a run: ["panic"] | ["err","other"] |
 //!   ["ok", rows, entries, error_count], entries = sorted [[prefix, idx, code..]..] with
 //!   prefix 0 = "record_", 1 = "pair_", -1 = anything else.
+//! Kinds: run, row, big, multi, pipe, combine (one operator / one chain / one collector over
+//! several runs), tree (branching pipelines: several builder calls on one handle, all five
+//! validation builders among map / filter / key_by / map_values / filter_values /
+//! map_values_batches, every collector read back after every collect), views / viewsbig (the
+//! collector through errors(), to_json(), write_to_file(), clone(), Display).
 use ibv::{Emitter, SplitMix64, Tier, drive};
 use ironbeam::validation::{
     ErrorCollector, RecordError, Validate, ValidationError, ValidationMode, ValidationResult,
@@ -378,6 +383,68 @@ fn run_views(keyed: bool, exec: &Exec, rows: &Value) -> Value {
     json!([first, via_json, via_file, via_clone, displayed])
 }
 
+/// "viewsbig" kind: in = [keyed, n, m, t, partitions]: one log-mode run of the big pattern, then
+/// summaries of every view: out = ["ok", [entries, sum of codes, number of errors] for errors(),
+/// to_json(), write_to_file(), clone(); displayed count, error_count] | ["panic"] | ["err", ..]
+fn run_views_big(keyed: bool, n: i64, m: i64, t: i64, parts: i64) -> Value {
+    let coll = Arc::new(Mutex::new(ErrorCollector::new()));
+    let vals: Vec<i64> = (0..n).map(|i| big_value(m, t, i)).collect();
+    let given = Some(Arc::clone(&coll));
+    let exec = Exec::Par(Some(3), Some(parts as usize));
+    let res = catch_unwind(AssertUnwindSafe(|| {
+        let p = Pipeline::default();
+        if keyed {
+            let data: Vec<(i64, Rec)> = vals.iter().map(|v| ((v / 4) % 7, Rec(*v))).collect();
+            collect_with(from_vec(&p, data).validate_values_with_mode(ValidationMode::LogAndContinue, given), &exec)
+                .map(|v| v.len())
+        } else {
+            let data: Vec<Rec> = vals.iter().map(|v| Rec(*v)).collect();
+            collect_with(from_vec(&p, data).validate_with_mode(ValidationMode::LogAndContinue, given), &exec)
+                .map(|v| v.len())
+        }
+    }));
+    match res {
+        Err(_) => return json!(["panic"]),
+        Ok(Err(_)) => return json!(["err", "other"]),
+        Ok(Ok(_)) => {}
+    }
+    let g = coll.lock().unwrap_or_else(std::sync::PoisonError::into_inner);
+    let summary = |rs: &[RecordError]| -> Value {
+        let (mut sum, mut nerr) = (0i64, 0i64);
+        for r in rs {
+            for e in &r.errors {
+                sum += err_code(e);
+                nerr += 1;
+            }
+        }
+        json!([rs.len() as i64, sum, nerr])
+    };
+    let bad = || json!([-1, -1, -1]);
+    let parse = |s: &str| serde_json::from_str::<Vec<RecordError>>(s).ok();
+    let via_json = g.to_json().ok().as_deref().and_then(parse).map_or_else(bad, |rs| summary(&rs));
+    let via_file = (|| {
+        let _ = std::fs::create_dir_all("/verif/run/C17/scratch");
+        let dir = tempfile::Builder::new()
+            .prefix("views-")
+            .tempdir_in("/verif/run/C17/scratch")
+            .or_else(|_| tempfile::tempdir())
+            .ok()?;
+        let path = dir.path().join("errors.json");
+        g.write_to_file(&path).ok()?;
+        Some(summary(&parse(&std::fs::read_to_string(&path).ok()?)?))
+    })()
+    .unwrap_or_else(bad);
+    let cl = g.clone();
+    let shown = format!("{g}");
+    let displayed = shown
+        .strip_prefix("ErrorCollector(")
+        .and_then(|r| r.strip_suffix(" errors)"))
+        .and_then(|n| n.parse::<i64>().ok())
+        .unwrap_or(-1);
+    json!(["ok", summary(g.errors()), via_json, via_file, summary(cl.errors()), displayed,
+           g.error_count() as i64])
+}
+
 // ------------------------------------------------------------------ tree kind
 /// a handle of either static type
 #[derive(Clone)]
@@ -652,6 +719,22 @@ fn run(kind: &str, input: &Value) -> Value {
             run_big(keyed, md, hc, &exec, n, m, t, k)
         }
         "tree" => run_tree(input),
+        "viewsbig" => {
+            let (Some(keyed), Some(n), Some(m), Some(t), Some(parts)) =
+                (bit(0), int(1), int(2), int(3), int(4))
+            else {
+                return json!(["invalid"]);
+            };
+            if input.as_array().map(Vec::len) != Some(5)
+                || !(0..=400_000).contains(&n)
+                || m < 1
+                || t < 0
+                || parts < 0
+            {
+                return json!(["invalid"]);
+            }
+            run_views_big(keyed, n, m, t, parts)
+        }
         "views" => {
             // in = [keyed, exec, threads, partitions, rows]
             let (Some(keyed), Some(ex), Some(t), Some(n), Some(rows)) =
@@ -1453,6 +1536,10 @@ fn gen_trees(seed: u64, thorough: bool, em: &mut Emitter) {
             for (i, a) in bs.iter().enumerate() {
                 for (j, b) in bs.iter().enumerate() {
                     for variant in 0..2 {
+                        // quick tier: one of the two scripts per ordered pair
+                        if !thorough && variant != (j % 2) ^ ((i / 2) % 2) {
+                            continue;
+                        }
                         let par = (i + j + variant + pi) % 2 == 1;
                         let (ex, parts) = if par { (1, 3) } else { (0, 0) };
                         let mut t = TreeGen::new(keyed0);
@@ -1751,6 +1838,17 @@ fn gen_more(seed: u64, thorough: bool, em: &mut Emitter) {
                 })
                 .collect();
             em.case("multi", json!([i64::from(keyed), 2, steps]), true, &["multi", "long"]);
+        }
+    }
+    // the views at sizes nobody reads by hand: summaries only
+    for keyed in [false, true] {
+        for (n, m, t, parts) in [(64i64, 1i64, 0i64, 3i64), (999, 3, 1, 4), (1000, 1, 0, 4), (1001, 1, 0, 1),
+                                 (1024, 2, 1, 8), (4096, 1, 0, 16), (10_001, 1, 0, 4), (15_002, 3, 1, 7)] {
+            em.case("viewsbig", json!([i64::from(keyed), n, m, t, parts]), true, &["views", "big"]);
+        }
+        if thorough {
+            em.case("viewsbig", json!([i64::from(keyed), 65_537, 1, 0, 16]), true, &["views", "big"]);
+            em.case("viewsbig", json!([i64::from(keyed), 100_003, 3, 1, 5]), true, &["views", "big"]);
         }
     }
     // every power of two (and its neighbours) through one operator, all modes: summaries only
